@@ -267,6 +267,17 @@ impl Rollback {
 
         // NOTE: for now, if there is a pending truncate, we ignore everything else.
         if let Some(pending_truncate) = pending_truncate {
+            if pending_truncate < seglog.live_range().0 .0 {
+                // Everything that was still live has been rolled back. The record preceding the
+                // live range may have been pruned already, so the log becomes empty rather than
+                // ending at that record.
+                return WriteoutData {
+                    rollback_start_live: 0,
+                    rollback_end_live: 0,
+                    prune_to_new_start_live: None,
+                    prune_to_new_end_live: Some(0),
+                };
+            }
             let rollback_start_live = std::cmp::min(seglog.live_range().0 .0, pending_truncate);
             return WriteoutData {
                 rollback_start_live,
